@@ -192,6 +192,58 @@ theorem kyg_pptt_row (st : Kyg) (l psi name : Str) (ln pn : Num)
   have ht : trim ['P', 'P', 'T', 'T'] = ['P', 'P', 'T', 'T'] := by decide
   simp [nth, trim_clean _ hl.2, trim_clean _ hp.2, trim_clean _ hn.2, hln, hpn, ht]
 
+/-- a `Muro` row in the old layout `Muro;name;area;U;b` is read back -/
+theorem kyg_muro_row (st : Kyg) (name a u b : Str) (an un bn : Num)
+    (hn : ';' ∉ name ∧ Clean name) (ha : ';' ∉ a ∧ Clean a) (hu : ';' ∉ u ∧ Clean u) (hb : ';' ∉ b ∧ Clean b)
+    (han : commaNum a = some an) (hun : commaNum u = some un) (hbn : commaNum b = some bn) :
+    kygLine st (joinWith [';'] ["Muro".toList, name, a, u, b]) =
+      .ok { st with walls := st.walls ++ [{ name := name, a := an, u := un, btrx := bn, extra := none }] } := by
+  have hfields : splitChar ';' (joinWith [';'] ["Muro".toList, name, a, u, b]) = ["Muro".toList, name, a, u, b] := by
+    apply splitChar_fields
+    · simp
+    · intro f hf
+      simp only [List.mem_cons, List.mem_nil_iff, or_false] at hf
+      rcases hf with rfl | rfl | rfl | rfl | rfl
+      · decide
+      · exact hn.1
+      · exact ha.1
+      · exact hu.1
+      · exact hb.1
+  have hline : joinWith [';'] ["Muro".toList, name, a, u, b] = 'M' :: 'u' :: 'r' :: 'o' :: ';' :: (name ++ ';' :: (a ++ ';' :: (u ++ ';' :: b))) := by
+    simp [joinWith]
+  have ht : trim ['M', 'u', 'r', 'o'] = ['M', 'u', 'r', 'o'] := by decide
+  unfold kygLine
+  rw [hfields, hline]
+  simp only [startsWith, List.isPrefixOf, List.isEmpty_cons]
+  simp [nth, trim_clean _ hn.2, trim_clean _ ha.2, trim_clean _ hu.2, trim_clean _ hb.2, han, hun, hbn, ht]
+
+/-- a `Ventana` row in the old layout `Ventana;name;area;U;orientation;frame %` is read back (O → W in the orientation) -/
+theorem kyg_ventana_row (st : Kyg) (name a u o ff : Str) (an un fn : Num)
+    (hn : ';' ∉ name ∧ Clean name) (ha : ';' ∉ a ∧ Clean a) (hu : ';' ∉ u ∧ Clean u) (ho : ';' ∉ o ∧ Clean o) (hf : ';' ∉ ff ∧ Clean ff)
+    (han : commaNum a = some an) (hun : commaNum u = some un) (hfn : commaNum ff = some fn) :
+    kygLine st (joinWith [';'] ["Ventana".toList, name, a, u, o, ff]) =
+      .ok { st with windows := st.windows ++ [{ name := name, orientation := replaceOW o, a := an, u := un, ff := fn, extra := none }] } := by
+  have hfields : splitChar ';' (joinWith [';'] ["Ventana".toList, name, a, u, o, ff]) = ["Ventana".toList, name, a, u, o, ff] := by
+    apply splitChar_fields
+    · simp
+    · intro f hf'
+      simp only [List.mem_cons, List.mem_nil_iff, or_false] at hf'
+      rcases hf' with rfl | rfl | rfl | rfl | rfl | rfl
+      · decide
+      · exact hn.1
+      · exact ha.1
+      · exact hu.1
+      · exact ho.1
+      · exact hf.1
+  have hline : joinWith [';'] ["Ventana".toList, name, a, u, o, ff] =
+      'V' :: 'e' :: 'n' :: 't' :: 'a' :: 'n' :: 'a' :: ';' :: (name ++ ';' :: (a ++ ';' :: (u ++ ';' :: (o ++ ';' :: ff)))) := by
+    simp [joinWith]
+  have ht : trim ['V', 'e', 'n', 't', 'a', 'n', 'a'] = ['V', 'e', 'n', 't', 'a', 'n', 'a'] := by decide
+  unfold kygLine
+  rw [hfields, hline]
+  simp only [startsWith, List.isPrefixOf, List.isEmpty_cons]
+  simp [nth, trim_clean _ hn.2, trim_clean _ ha.2, trim_clean _ hu.2, trim_clean _ ho.2, trim_clean _ hf.2, han, hun, hfn, ht]
+
 example : commaNum "54,14".toList = some (Num.fin false 5414 (-2)) := by decide
 example : commaNum "0.960".toList = some (Num.fin false 960 (-3)) := by decide
 example : (kygLine {} "PPTT;54,14;0,960;UNION_CUBIERTA;SDINT".toList).toOption.map (fun k => k.tbs.map (fun t => (String.ofList t.name, t.l, String.ofList t.sisdim))) =
